@@ -234,7 +234,26 @@ fn rent(sc: &Scenario, e: &WalEntry) -> String {
     format!("RE {} {} {}", e.timestamp, chex(&e.data), e.checksum)
 }
 
+/// recover_all_entries under catch_unwind: None = the implementation panicked or returned Err
+fn safe_all<S: WalStore>(rot: &WalRotator<S>) -> Option<Vec<WalEntry>> {
+    match std::panic::catch_unwind(std::panic::AssertUnwindSafe(|| rot.recover_all_entries())) {
+        Ok(Ok(v)) => Some(v),
+        _ => None,
+    }
+}
+/// the directory a probe ran on: file name -> hex of its bytes (null = file removed)
+fn dir_json(sc: &Scenario, imgs: &[Option<Vec<u8>>]) -> serde_json::Value {
+    serde_json::Value::Object(sc.files.iter().zip(imgs).map(|(f, d)| (f.name.clone(), match d { Some(b) => json!(hex(b)), None => serde_json::Value::Null })).collect())
+}
+
 fn main() {
+    // a panic inside catch_unwind is a result of the probe (reported as a violation), not noise
+    std::panic::set_hook(Box::new(|info| {
+        let bt = std::backtrace::Backtrace::force_capture().to_string();
+        if !bt.contains("catch_unwind") {
+            eprintln!("harness panic: {}", info);
+        }
+    }));
     let a: Vec<String> = std::env::args().collect();
     let args = &Args::parse(&a[1..]);
     let mut out = Out::new(&args.out, "C10", args.shards, HEADER);
@@ -348,7 +367,7 @@ fn main() {
                     out.impl_checks += 1;
                     match r {
                         Err(_) => {
-                            out.violation(i, "recover_all_entries panicked", json!({"mutations": mt}));
+                            out.violation(i, "the implementation panicked on WalRotator::recover_all_entries", json!({"mutations": mt, "directory": dir_json(&sc, &imgs)}));
                             pterms.push(format!("PRecover {} None", mt));
                         }
                         Ok(Err(e)) => {
@@ -377,11 +396,11 @@ fn main() {
                     out.count(&format!("after:{}", label));
                     let rot = WalRotator::new(store.clone(), sc.max_file_size).unwrap();
                     let r = std::panic::catch_unwind(std::panic::AssertUnwindSafe(|| rot.recover_entries_after(*t)));
-                    let all = rot.recover_all_entries().unwrap();
+                    let all = safe_all(&rot).unwrap_or_default(); // a panic / error here is reported by the recover probes
                     out.impl_checks += 1;
                     match r {
                         Err(_) => {
-                            out.violation(i, "recover_entries_after panicked", json!({"mutations": mt, "T": t}));
+                            out.violation(i, "the implementation panicked on WalRotator::recover_entries_after", json!({"mutations": mt, "T": t, "directory": dir_json(&sc, &imgs)}));
                             pterms.push(format!("PAfter {} {} None", mt, t));
                         }
                         Ok(Err(_)) => {
@@ -412,13 +431,25 @@ fn main() {
                         let seq = rot.append(&wal_entry(&sc.ents[ei])).unwrap();
                         extra = Some((ei, format!("wal-{:08x}.wal", seq)));
                     }
-                    let before = rot.recover_all_entries().unwrap();
+                    let before = match safe_all(&rot) {
+                        Some(v) => v,
+                        None => {
+                            out.violation(i, "the implementation panicked on WalRotator::recover_all_entries", json!({"mutations": mt, "before": "truncate_before", "directory": dir_json(&sc, &imgs)}));
+                            vec![]
+                        }
+                    };
                     let r = std::panic::catch_unwind(std::panic::AssertUnwindSafe(|| rot.truncate_before(*t)));
                     out.impl_checks += 1;
                     let ex = copt(&extra, |e| e.0.to_string());
                     match r {
                         Ok(Ok(deleted)) => {
-                            let after = rot.recover_all_entries().unwrap();
+                            let after = match safe_all(&rot) {
+                                Some(v) => v,
+                                None => {
+                                    out.violation(i, "the implementation panicked on WalRotator::recover_all_entries", json!({"mutations": mt, "after": "truncate_before", "T": t}));
+                                    vec![]
+                                }
+                            };
                             let names = store.list().unwrap();
                             // base files in list() order, then 1000 for the file the live writer created
                             let mut remaining: Vec<u64> = names.iter().filter_map(|n| sc.files.iter().position(|f| &f.name == n).map(|p| p as u64)).collect();
@@ -442,7 +473,7 @@ fn main() {
                             pterms.push(format!("PTrunc {} {} {} None", mt, ex, t));
                         }
                         Err(_) => {
-                            out.violation(i, "truncate_before panicked", json!({"mutations": mt, "T": t}));
+                            out.violation(i, "the implementation panicked on WalRotator::truncate_before", json!({"mutations": mt, "T": t, "directory": dir_json(&sc, &imgs)}));
                             pterms.push(format!("PTrunc {} {} {} None", mt, ex, t));
                         }
                     }
